@@ -1,6 +1,7 @@
 package exec
 
 import (
+	"strconv"
 	"fmt"
 	"go/types"
 	"math/big"
@@ -39,6 +40,10 @@ type Config struct {
 	ExpectViolation bool   `json:"expect_violation"` // reach twin
 	Verbose       int      `json:"-"`
 	Thorough      bool     `json:"-"`
+	// concrete replay: fixed values of the nondet calls (tag -> values by occurrence) and fixed schedule
+	FixedValues   map[string][]string `json:"-"`
+	FixedSched    []int    `json:"-"`
+	Replaying     bool     `json:"-"`
 	TimeBudgetS   float64  `json:"time_budget_s"`
 	forkRe        []*regexp.Regexp
 	mergeRe       []*regexp.Regexp
@@ -233,6 +238,7 @@ type Exec struct {
 	watched    map[*Value]bool
 	unsatCache map[string]bool
 	uuidCounter int
+	schedPos    int
 	clockTick   int
 	syncs      map[*Value]*syncSt
 	resched    bool
@@ -354,6 +360,22 @@ func (e *Exec) decideN(site string, conds []*smt.Term) int {
 // decideNX: allFeasible skips the feasibility queries (the caller knows every alternative is possible).
 func (e *Exec) decideNX(site string, conds []*smt.Term, allFeasible bool) int {
 	n := len(conds)
+	if e.cfg.Replaying {
+		// concrete replay: exactly one alternative is true
+		for i, c := range conds {
+			if c.IsTrue() {
+				allOther := true
+				for j, o := range conds {
+					if j != i && !o.IsFalse() {
+						allOther = false
+					}
+				}
+				if allOther {
+					return i
+				}
+			}
+		}
+	}
 	e.stats.Decisions++
 	if e.dpos < len(e.prefix) {
 		d := e.prefix[e.dpos]
@@ -453,6 +475,21 @@ func (e *Exec) obligation(th *Thread, fr *Frame, in ssa.Instruction, cond *smt.T
 func (e *Exec) nondet(tag string, s smt.Sort, lo, hi *big.Int, kind string) *smt.Term {
 	occ := e.nondetOcc[tag]
 	e.nondetOcc[tag] = occ + 1
+	if e.cfg.Replaying {
+		var bits uint64
+		if l := e.cfg.FixedValues[tag]; occ < len(l) && l[occ] != "" {
+			if u, err := strconv.ParseUint(l[occ], 10, 64); err == nil {
+				bits = u
+			} else if i, err := strconv.ParseInt(l[occ], 10, 64); err == nil {
+				bits = uint64(i)
+			}
+		} else if lo != nil {
+			bits = uint64(lo.Int64())
+		}
+		v := e.ctx.Const(s, bits)
+		e.nondets = append(e.nondets, NondetRec{Tag: tag, Occ: occ, Term: v, Kind: kind})
+		return v
+	}
 	name := fmt.Sprintf("v_%s_%d", sanitize(tag), occ)
 	v := e.ctx.Var(name, s, lo, hi)
 	e.nondets = append(e.nondets, NondetRec{Tag: tag, Occ: occ, Term: v, Kind: kind})
